@@ -196,10 +196,13 @@ impl Monitors {
         // stale genuine timer?  (decided before the ledger is updated)
         let mut delivered_stale = false;
         let mut delivered_genuine = false;
+        // epochs that have gone by since a genuine timer was issued (None: not a timer this instance scheduled)
+        let mut genuine_age: Option<u64> = None;
         if let Input::Timer(t) = &rec.input {
             if let Some(pos) = self.ledger.iter().position(|(x, _)| x == t) {
                 let (_, issued) = self.ledger.remove(pos);
                 delivered_genuine = true;
+                genuine_age = Some(self.epochs - issued);
                 if is_periodic_or_probe(t) && issued != self.epochs && self.epochs - issued < 256 {
                     delivered_stale = true;
                 }
@@ -208,7 +211,7 @@ impl Monitors {
 
         self.check_sends(pre, rec, post, &told, delivered_genuine, at, out, stats);
         self.check_relays(pre, rec, post, &told, at, out, stats);
-        self.check_suspicion_timeout(pre, rec, post, at, out, stats);
+        self.check_suspicion_timeout(pre, rec, post, genuine_age, at, out, stats);
         self.check_round_robin(pre, rec, post, at, out, stats);
         self.check_rejections(pre, rec, post, at, out, stats);
         self.check_probe_rounds(pre, rec, post, &told, at, out, stats);
@@ -875,7 +878,7 @@ impl Monitors {
     /// stale or crafted): it takes effect - completely - iff the record still shows that identity at
     /// that incarnation (and is not Down already) and the token is the current epoch's; otherwise the
     /// call changes nothing and emits nothing.
-    fn check_suspicion_timeout(&mut self, pre: &Obs, rec: &CallRec, post: &Obs, at: u64, out: &mut Vec<Violation>, stats: &mut Stats) {
+    fn check_suspicion_timeout(&mut self, pre: &Obs, rec: &CallRec, post: &Obs, genuine_age: Option<u64>, at: u64, out: &mut Vec<Violation>, stats: &mut Stats) {
         let Input::Timer(Timer::ChangeSuspectToDown { member_id, incarnation, token }) = &rec.input else { return };
         if rec.result == Res::Panic {
             return;
@@ -891,8 +894,19 @@ impl Monitors {
         let codec = self.codec;
         let slot = pre.slot(member_id.addr);
         let live = slot.is_some_and(|m| m.id() == member_id && m.incarnation() == *incarnation && m.state() != State::Down);
-        let current = *token == pre.snap.timer_token;
-        let ctx = format!("timeout for {member_id}@{incarnation} token {token} (current {}), slot before: {slot:?}", pre.snap.timer_token);
+        // "belongs to the current connection epoch": for a timeout this instance scheduled itself the monitor knows
+        // the epoch it was issued in (its own count of Idle / Defunct / identity changes), whatever the 8-bit token
+        // says; for any other one (crafted, duplicated) the token is all there is
+        let current = match genuine_age {
+            Some(age) if age < 250 && !self.token_wrapped => {
+                if (age == 0) != (*token == pre.snap.timer_token) {
+                    stats.inc("c11_epoch_ledger_and_token_disagree");
+                }
+                age == 0
+            }
+            _ => *token == pre.snap.timer_token,
+        };
+        let ctx = format!("timeout for {member_id}@{incarnation} token {token} (current {}), issued {genuine_age:?} epoch(s) ago, slot before: {slot:?}", pre.snap.timer_token);
         if !(live && current) {
             stats.inc("c11_timeouts_without_effect_expected");
             if !rec.no_effects() || rec.result != Res::Ok || pre != post {
